@@ -154,6 +154,7 @@ pub fn sip_hash(src: &Dyn) -> u64 {
 /// Gather retained chunks into ropes the way a consumer does and cross-check
 /// slicing against plain strings.
 fn consumer_tail(chunks: &[(Option<Rope<'_>>, Mapping)]) -> Option<String> {
+
   let owned: Vec<String> = chunks
     .iter()
     .filter_map(|(c, _)| c.as_ref().map(|r| r.to_string()))
@@ -177,7 +178,10 @@ fn consumer_tail(chunks: &[(Option<Rope<'_>>, Mapping)]) -> Option<String> {
   // 3. slices at char boundaries
   let mut bounds: Vec<usize> = flat.char_indices().map(|(i, _)| i).collect();
   bounds.push(flat.len());
-  let picks: Vec<usize> = if bounds.len() <= 6 {
+  let picks: Vec<usize> = if cfg!(miri) && bounds.len() > 3 {
+    let n = bounds.len();
+    vec![bounds[0], bounds[n / 2], bounds[n - 1]]
+  } else if bounds.len() <= 6 {
     bounds.clone()
   } else {
     let n = bounds.len();
